@@ -506,7 +506,9 @@ class Gen:
         if k == "opaque0":
             if r.random() < 0.2:
                 # the OPAQUE spelling of a type the core also knows (a document may spell usize / string that way)
-                return ["opaque", "prelude", r.choice(["usize", "string", "qubit"]), [], "C"]
+                # (with the bound its definition gives it: usize and string are copyable, qubit is not)
+                n_ = r.choice(["usize", "string"] if self.copy_only else ["usize", "string", "qubit"])
+                return ["opaque", "prelude", n_, [], "A" if n_ == "qubit" else "C"]
             return ["opaque", r.choice(["ext.a", "b", HEXT]), r.choice(["X", "Y"]), [], self.b()]
         if k == "sum":
             return ["sum", [self.row(d, 2) for _ in range(r.randint(0, 3))]]
